@@ -238,7 +238,6 @@ func runPseq(ps config.Profiles, seq [][3]string) string {
 	return "seq=" + joinOrDash(outs)
 }
 
-
 // profWire: the sequence being run is a `pwire` one (set by the area's line runner; the area is single-threaded)
 var profWire bool
 
@@ -444,6 +443,7 @@ func init() {
 	// from the address it wrote to) and be resolved under the profile of its own addresses.
 	areas["localaddr"] = func(c *Ctx) error {
 		run := func(l string) {
+			c.Note(l)
 			l = adaptProfLine(c, l)
 			f := strings.Split(l, " ")
 			if len(f) < 2 || f[0] != "pwire" {
